@@ -209,20 +209,46 @@ func genPattern(t *rapid.T, preds []Pred, atoms []Atom, p int) []*val.V {
 	return pat
 }
 
+// genLimit draws the interval limit of a store: none (the default of 1000), a small one in a third of the
+// draws, the documented "no limit" value -1, or the option with 0.
+func genLimit(t *rapid.T, label string) (limit int, zero bool) {
+	switch rapid.IntRange(0, 11).Draw(t, label+"mode") {
+	case 8, 9, 10, 11:
+		return rapid.SampledFrom([]int{1, 2, 3, 4, 6, 7, 8, 10, 12}).Draw(t, label), false
+	case 7:
+		return -1, false
+	case 6:
+		return 0, true
+	}
+	return 0, false
+}
+
+func genVia(t *rapid.T) string {
+	if rapid.IntRange(0, 9).Draw(t, "via") < 6 {
+		return viaBase
+	}
+	return viaView
+}
+
 func genCase(run *stats.Run, t *rapid.T) Case {
 	preds, atoms := genAtoms(run, t)
 	c := Case{Preds: preds, Atoms: atoms}
-	switch rapid.IntRange(0, 8).Draw(t, "limitmode") {
-	case 6, 7, 8:
-		c.Limit = rapid.SampledFrom([]int{1, 2, 3, 4, 6, 7, 8, 10, 12}).Draw(t, "limit")
-	case 5:
-		c.Limit = -1
+	c.Limit, c.ZeroLimit = genLimit(t, "limit")
+	// Four histories of ten have a second store beside the primary one; its steps and the merges between the
+	// two are interleaved with the steps of the primary store.
+	side := rapid.IntRange(0, 9).Draw(t, "side") < 4
+	if side {
+		c.Side = &Side{}
+		c.Side.Limit, c.Side.ZeroLimit = genLimit(t, "sidelimit")
 	}
 	// The history is a self-delimiting sequence (rapid can delete single steps while shrinking); its minimum
 	// length is drawn first so that long histories are as frequent as short ones.
 	minOps := rapid.SampledFrom([]int{1, 8, 16, 24, 32}).Draw(t, "minops")
 	tee := rapid.IntRange(0, 3).Draw(t, "tee") == 3
 	focus := rapid.IntRange(0, len(atoms)-1).Draw(t, "focus")
+	// hist holds, per atom, the intervals offered to either store: an interval for the side store is drawn
+	// relative to those of the primary store and vice versa, so that a merge meets exact duplicates, equal
+	// starts, nested, touching and overlapping intervals across the two stores.
 	hist := make([][]Iv, len(atoms))
 	pickAtom := func(t *rapid.T, label string) int {
 		if len(atoms) == 1 || rapid.IntRange(0, 9).Draw(t, label+"focus") < 6 {
@@ -236,10 +262,30 @@ func genCase(run *stats.Run, t *rapid.T) Case {
 		}
 		return rapid.IntRange(0, len(preds)-1).Draw(t, label)
 	}
+	pickStore := func(t *rapid.T) int {
+		if side && rapid.IntRange(0, 9).Draw(t, "store") < 4 {
+			return 1
+		}
+		return 0
+	}
+	genFresh := func(t *rapid.T) Op {
+		op := Op{K: opFresh, S: pickStore(t), Via: genVia(t)}
+		// the new store has a limit in half of the draws (a small one more often than genLimit gives it)
+		if rapid.Bool().Draw(t, "freshlimited") {
+			op.Limit = rapid.SampledFrom([]int{1, 2, 3, 4, 6, 8, 12}).Draw(t, "freshlimit")
+		} else {
+			op.Limit, op.ZeroLimit = genLimit(t, "freshlimit")
+		}
+		return op
+	}
 	step := rapid.Custom(func(t *rapid.T) Op {
 		var op Op
-		switch w := rapid.IntRange(0, 99).Draw(t, "op"); {
-		case w < 56:
+		w := rapid.IntRange(0, 99).Draw(t, "op")
+		if !side && w >= 50 && w < 56 {
+			w = 0 // no second store to merge with: an insertion instead
+		}
+		switch {
+		case w < 50:
 			a := pickAtom(t, "addatom")
 			iv := genInterval(t, hist[a])
 			hist[a] = append(hist[a], iv)
@@ -247,7 +293,11 @@ func genCase(run *stats.Run, t *rapid.T) Case {
 			if iv.LoInf && iv.HiInf {
 				op.Eternal = rapid.Bool().Draw(t, "viaAddEternal")
 			}
-		case w < 66:
+		case w < 56:
+			return Op{K: opMerge, S: pickStore(t), Via: genVia(t)}
+		case w < 58:
+			return genFresh(t)
+		case w < 67:
 			p := pickPred(t, "atpred")
 			op = Op{K: opAt, P: p, Pat: genPattern(t, preds, atoms, p), T: genProbe(t, "t")}
 		case w < 75:
@@ -279,6 +329,7 @@ func genCase(run *stats.Run, t *rapid.T) Case {
 		default:
 			op = Op{K: opSweep}
 		}
+		op.S = pickStore(t)
 		return op
 	})
 	c.Ops = rapid.SliceOfN(step, minOps, 44).Draw(t, "ops")
@@ -286,8 +337,28 @@ func genCase(run *stats.Run, t *rapid.T) Case {
 		c.Tee = true
 		c.Split = rapid.IntRange(0, len(c.Ops)).Draw(t, "split")
 	}
+	if side && rapid.IntRange(0, 3).Draw(t, "sidetee") == 3 {
+		c.Side.Tee = true
+		c.Side.Split = rapid.IntRange(0, len(c.Ops)).Draw(t, "sidesplit")
+	}
+	if side {
+		// two histories of three with a second store end with a merge of everything collected so far, half
+		// of these with a coalescing of what the merge brought
+		if rapid.IntRange(0, 2).Draw(t, "finalmerge") != 0 {
+			m := Op{K: opMerge, S: pickStore(t), Via: genVia(t)}
+			c.Ops = append(c.Ops, m)
+			if rapid.Bool().Draw(t, "finalcoalesce") {
+				c.Ops = append(c.Ops, Op{K: opCoalesce, S: m.S, P: pickPred(t, "finalcoalescepred")})
+			}
+		}
+	} else if rapid.IntRange(0, 9).Draw(t, "finalfresh") == 0 {
+		c.Ops = append(c.Ops, genFresh(t))
+	}
 	if rapid.IntRange(0, 9).Draw(t, "finalsweep") != 9 {
 		c.Ops = append(c.Ops, Op{K: opSweep})
+		if side {
+			c.Ops = append(c.Ops, Op{K: opSweep, S: 1})
+		}
 	}
 	return c
 }
